@@ -11,14 +11,13 @@ only WITHIN one buffer (one chunk = one `ReadFromConn`) is the chunk-local state
   `bufIndex > 0 && rbuf[bufIndex-1] != '\r'` is vacuous there, so a lone LF is accepted at a chunk start and rejected
   mid-chunk);
 * `phase` — where the `case 4` handler is: `entry` (the handler is (re-)entered: at a chunk start, or right after the
-  `$<len>` line), `data left rem` (inside the block copy; `rem` is the LOCAL `cargLen := self.cargLen - self.cargIndex`
-  computed at entry), `scan` (the trailing `for` loop that looks for LF).
+  `$<len>` line), `data left` (inside the block copy, `left` bytes to go), `scan` (the trailing `for` loop that looks
+  for LF).
 
-The bug-compatible detail: when the block copy completes the code assigns `self.cargIndex = cargLen` with the LOCAL
-`cargLen` (= `rem`), not `self.cargLen`.  If the chunk then ends before the LF is seen, the next call recomputes
-`self.cargLen - self.cargIndex`, which is positive again whenever part of the argument had arrived in an earlier chunk,
-and swallows that many further bytes as argument data.  `got` mirrors `cargIndex` in stage 4 byte for byte
-(`+1` per copied byte = the partial-copy arithmetic, `:= rem` on completion).
+`got` mirrors `cargIndex` in stage 4 byte for byte: `+1` per copied byte (= the partial-copy arithmetic
+`cargIndex += bufLen - bufIndex`), `:= self.cargLen` when the block copy completes.  (Before the repair
+"fix: TextParser sets cargIndex to the argument's full length…" the code assigned the LOCAL remaining length there,
+which made the parser depend on the chunking; the model followed that and the counterexample was a theorem.)
 
 Core Lean only.  A Go index panic is the explicit outcome `panic`.
 -/
@@ -77,7 +76,7 @@ inductive Stage | s0 | s1 | s2 | s3 | s4
 
 inductive Phase
   | entry
-  | data (left rem : Nat)
+  | data (left : Nat)
   | scan
   deriving DecidableEq, Repr, Inhabited
 
@@ -134,12 +133,12 @@ def appendLast : List Bytes → UInt8 → Option (List Bytes)
   | [a], b => some [a ++ [b]]
   | a :: a' :: as, b => (appendLast (a' :: as) b).map (a :: ·)
 
-def dataByte (s : PState) (b : UInt8) (left rem : Nat) : Step :=
+def dataByte (s : PState) (b : UInt8) (left : Nat) : Step :=
   match (if s.got = 0 then some (s.args ++ [[b]]) else appendLast s.args b) with
   | none => .panic
   | some args' =>
-    if left ≤ 1 then .cont { s with args := args', got := rem } ⟨some b, .scan⟩
-    else .cont { s with args := args', got := s.got + 1 } ⟨some b, .data (left - 1) rem⟩
+    if left ≤ 1 then .cont { s with args := args', got := s.cargLen.toNat } ⟨some b, .scan⟩
+    else .cont { s with args := args', got := s.got + 1 } ⟨some b, .data (left - 1)⟩
 
 def scanByte (s : PState) (l : Loc) (b : UInt8) : Step :=
   if b = 10 then
@@ -157,8 +156,8 @@ def step4 (s : PState) (l : Loc) (b : UInt8) : Step :=
   match l.phase with
   | .entry =>
     let rem := s.cargLen - (s.got : Int)
-    if rem > 0 then dataByte s b rem.toNat rem.toNat else scanByte s l b
-  | .data left rem => dataByte s b left rem
+    if rem > 0 then dataByte s b rem.toNat else scanByte s l b
+  | .data left => dataByte s b left
   | .scan => scanByte s l b
 
 def step (s : PState) (l : Loc) (b : UInt8) : Step :=
